@@ -1499,10 +1499,11 @@ impl Monitor for C03 {
             gen("frames", tier.pick(80_000, 2_000_000, 0)),
             gen("random", 256 * tier.pick(3_000, 80_000, 0)),
             gen("direct-new", 40 * tier.pick(64, 2_000, 0)),
+            gen("long", tier.pick(3_000, 100_000, 0)),
         ]
     }
     fn rule(&self) -> String {
-        "Every input goes to all 12 entry points (parse, 3 frame parsers, 2 decrypt_in_place with arbitrary keys, 6 command iterators) and, on success, to every public accessor; FOpts and decrypted FRMPayloads are fed back to the 6 iterators as nested inputs. exh-0-2/exh-3: every byte string of length 0..2 / 3, all 16.8 M of them in both tiers (one case = one slab of 256 inputs sharing their leading octets); cid-trunc: every CID 0..255 x every truncation point of the longest form of the command in each of the 6 sets x {00, FF, random} fill, alone / after a whole command / followed by more octets, McGroupStatusAns for all 256 status octets; mhdr-grid: every MHDR x length 0..64 x FOptsLen 0..15; streams: valid command streams (hand-built from the specification table, the crate's creators and build_mac_commands) and 12 mutants each; frames: valid data/join frames carrying valid streams (reference encoder and the crate's builder) with true or foreign keys, every truncation, every FOptsLen, bit flips, extension, splice; random: random strings of every length 0..255. Class = (entry point, outcome class, first octet (CID/MHDR), octets left at the stop (iterators) or input length bucket (frames)).".into()
+        "long: byte strings of 256..1230 octets (random, data-frame shaped, small-CID sprinkled). Every input goes to all 12 entry points (parse, 3 frame parsers, 2 decrypt_in_place with arbitrary keys, 6 command iterators) and, on success, to every public accessor; FOpts and decrypted FRMPayloads are fed back to the 6 iterators as nested inputs. exh-0-2/exh-3: every byte string of length 0..2 / 3, all 16.8 M of them in both tiers (one case = one slab of 256 inputs sharing their leading octets); cid-trunc: every CID 0..255 x every truncation point of the longest form of the command in each of the 6 sets x {00, FF, random} fill, alone / after a whole command / followed by more octets, McGroupStatusAns for all 256 status octets; mhdr-grid: every MHDR x length 0..64 x FOptsLen 0..15; streams: valid command streams (hand-built from the specification table, the crate's creators and build_mac_commands) and 12 mutants each; frames: valid data/join frames carrying valid streams (reference encoder and the crate's builder) with true or foreign keys, every truncation, every FOptsLen, bit flips, extension, splice; random: random strings of every length 0..255. Class = (entry point, outcome class, first octet (CID/MHDR), octets left at the stop (iterators) or input length bucket (frames)).".into()
     }
     fn assumptions(&self) -> Vec<String> {
         vec![
@@ -1533,6 +1534,7 @@ impl Monitor for C03 {
         ];
         if tier != Tier::Sanitizer {
             v.push("all_44_command_variants_parsed");
+            v.push("long_input");
         }
         v
     }
@@ -1721,6 +1723,33 @@ impl Monitor for C03 {
                 judge_input(&m, "frames/mhdr", &mut cx, col);
             }
             "direct-new" => direct_new_case(idx, rng, col),
+            "long" => {
+                // byte strings longer than any radio delivers (256..=1230 octets): 'no byte string'
+                // has no upper length
+                let len = 256 + (idx % 64) as usize * 15 + rng.below(15) as usize;
+                let mut v = rng.bytes(len);
+                match rng.below(3) {
+                    0 => {
+                        // shaped like a data frame
+                        v[0] = (rng.range(2, 5) as u8) << 5;
+                        v[5] = (v[5] & 0xf0) | rng.below(16) as u8;
+                    }
+                    1 => {
+                        for b in v.iter_mut() {
+                            if rng.chance(1, 3) {
+                                *b &= 0x0f;
+                            }
+                        }
+                    }
+                    _ => {}
+                }
+                cx.key_mode = rng.below(4) as u8;
+                if col.want_sample() {
+                    col.sample(json!({"len": len, "bytes": hex(&v[..48])}));
+                }
+                col.event("long_input");
+                judge_input(&v, g, &mut cx, col);
+            }
             "random" => {
                 let len = (idx % 256) as usize;
                 let mut v = rng.bytes(len);
